@@ -461,6 +461,17 @@ pub fn push_whale(exps: &mut Vec<Exp>, depth: usize) {
     exps.push(e);
 }
 
+/// Partial closes (fluctuation limit 5%, partial ratio 25%, trades sized around the band edge) in a pool priced 0.1,
+/// where a quote amount and the base amount it stands for no longer round-trip exactly.
+pub fn push_partial_close_cheap(exps: &mut Vec<Exp>, depth: usize) {
+    let mut c = cfg_with(true, true, 250_000);
+    c.fluct = 50_000;
+    c.imr = 100_000;
+    c.quote_reserve = 100 * D;
+    c.base_reserve = 1000 * D;
+    exps.push(Exp { setup: None, name: "partial close, price 0.1".into(), cfg: c, traders: T2.to_vec(), seeds: vec![vec![]], alpha: Alpha::Dyn(alpha_c15), depth, init_mon: Value::Null, raw: false });
+}
+
 /// Configuration changed mid-history: the owner's legal updates of the engine ratios and of the vAMM's fee and band
 /// settings are actions, interleaved with trades, liquidations and funding on positions opened under the old values.
 /// The oracles read the configuration in force (`World::live_cfg`).
@@ -609,6 +620,7 @@ pub fn run_c02(tier: Tier) -> i32 {
     }
     push_two_vamms(&mut exps, tier.pick(3, 4));
     push_whale(&mut exps, tier.pick(2, 3));
+    push_partial_close_cheap(&mut exps, tier.pick(4, 5));
     push_cfgchange(&mut exps, tier.pick(3, 4));
     push_dec9(&mut exps, tier.pick(1, 3), false);
     run_exps(&mut run, step_c02, exps, |_| {});
@@ -673,6 +685,7 @@ pub fn run_c03(tier: Tier) -> i32 {
     }
     push_two_vamms(&mut exps, tier.pick(3, 4));
     push_whale(&mut exps, tier.pick(2, 3));
+    push_partial_close_cheap(&mut exps, tier.pick(4, 5));
     push_cfgchange(&mut exps, tier.pick(3, 4));
     push_dec9(&mut exps, tier.pick(1, 3), false);
     run_exps(&mut run, step_c03, exps, |_| {});
@@ -859,6 +872,7 @@ pub fn run_c04(tier: Tier) -> i32 {
     }
     push_two_vamms(&mut exps, tier.pick(3, 4));
     push_whale(&mut exps, tier.pick(2, 3));
+    push_partial_close_cheap(&mut exps, tier.pick(4, 5));
     push_cfgchange(&mut exps, tier.pick(3, 4));
     push_dec9(&mut exps, tier.pick(1, 3), false);
     run_exps(&mut run, step_c04, exps, |_| {});
@@ -1450,6 +1464,7 @@ pub fn run_c12(tier: Tier) -> i32 {
     }
     push_two_vamms(&mut exps, tier.pick(3, 4));
     push_whale(&mut exps, tier.pick(2, 3));
+    push_partial_close_cheap(&mut exps, tier.pick(4, 5));
     push_cfgchange(&mut exps, tier.pick(3, 4));
     push_dec9(&mut exps, tier.pick(1, 3), false);
     run_exps(&mut run, step_c12, exps, |_| {});
